@@ -187,3 +187,19 @@ META["C15"] = {
         "the canonical state of the BFS assumes that text plus the flag determine the future; the DFS without merging guards that assumption up to the depth bound",
     ],
 }
+
+META["C03"] = {
+    "level": "model_checking",
+    "parts": 9,
+    "tiers": {
+        "quick": {"shards": 9, "deadline_s": 500,
+                  "bounds": "calls [7,12,5,9]: every composition into segments (all 8 sets of interruption points) x every assignment of {in memory, text round trip, file written by the built-in callback} to the segments; PLAIN, VEGAS default / user grid, MULTI-CHANNEL default / user weights with a disabled channel; distributions {none, 1-d 'a b', 1-d empty name, 2-d ' lead', two (one with trailing blank, one empty 2-d)}; without target and with a target reached at iteration 2; 9 engines x 3 types"},
+        "thorough": {"shards": 9, "deadline_s": 3000, "bounds": "as quick with calls [7,12,5,9,6] (16 sets of interruption points)"},
+    },
+    "rule": "stateless enumeration of segment paths on real checkpoints; after every segment the checkpoint text must equal the text G_k of the uninterrupted run (confluence); states = distinct texts observed per depth (one per depth when the property holds), transitions = executed segments; distinct_nontrivial = distinct complete paths",
+    "binding": "no separate model: every segment runs the real integrators, serialize(), the stream constructors and the built-in callback writing a real file",
+    "assumptions": [
+        "an interruption is an externally caused stop strictly before the iteration at which the run ends by itself (a run resumed after its natural end would perform one more iteration - the stop rule is only evaluated after an iteration)",
+        "the checkpoint file is written below /verif/build/out/tmp",
+    ],
+}
